@@ -3,6 +3,7 @@ package pgdump
 import (
 	"fmt"
 	"regexp"
+	"sort"
 )
 
 // SearchResult represents a match found during search
@@ -50,7 +51,8 @@ func Search(dataDir string, opts *SearchOptions) ([]SearchResult, error) {
 	for _, db := range result.Databases {
 		for _, table := range db.Tables {
 			for rowNum, row := range table.Rows {
-				for colName, value := range row {
+				for _, colName := range rowKeys(table.Columns, row) {
+					value := row[colName]
 					if matchValue(value, re) {
 						match := SearchResult{
 							Database: db.Name,
@@ -96,7 +98,8 @@ func SearchInDump(result *DumpResult, opts *SearchOptions) ([]SearchResult, erro
 	for _, db := range result.Databases {
 		for _, table := range db.Tables {
 			for rowNum, row := range table.Rows {
-				for colName, value := range row {
+				for _, colName := range rowKeys(table.Columns, row) {
+					value := row[colName]
 					if matchValue(value, re) {
 						match := SearchResult{
 							Database: db.Name,
@@ -120,6 +123,29 @@ func SearchInDump(result *DumpResult, opts *SearchOptions) ([]SearchResult, erro
 	}
 
 	return matches, nil
+}
+
+// rowKeys returns the keys of row in a reproducible order: the table's columns
+// in attribute order first, then any key that is not a declared column, sorted.
+// (Ranging over the map directly makes the order of the hits - and, with
+// MaxResults, which hits are returned - depend on Go's random map iteration.)
+func rowKeys(columns []ColumnInfo, row map[string]interface{}) []string {
+	keys := make([]string, 0, len(row))
+	seen := make(map[string]bool, len(row))
+	for _, col := range columns {
+		if _, ok := row[col.Name]; ok && !seen[col.Name] {
+			seen[col.Name] = true
+			keys = append(keys, col.Name)
+		}
+	}
+	var rest []string
+	for k := range row {
+		if !seen[k] {
+			rest = append(rest, k)
+		}
+	}
+	sort.Strings(rest)
+	return append(keys, rest...)
 }
 
 // matchValue checks if a value matches the regex
